@@ -177,7 +177,9 @@ func (w *World) VerifyFunc(fn *ssa.Function, mode *Mode, prop string) (x *X, err
 			}
 			var t *Term
 			if e := safeEval(func() { t = env.Bool(rq.Expr) }); e != nil {
-				return x, fmt.Errorf("%s: requires %q: %v", x.root, rq.Src, e)
+				// the clause no longer fits the code (a renamed parameter): skipped, remembered
+				x.noteStale(fmt.Sprintf("%s: requires %q: %v", x.root, rq.Src, e))
+				continue
 			}
 			x.assume(pc, t, "precondition "+rq.Src)
 			x.requires = append(x.requires, t)
@@ -241,7 +243,8 @@ func (w *World) VerifyFunc(fn *ssa.Function, mode *Mode, prop string) (x *X, err
 				post.bindResults(rnames, rv)
 				var t *Term
 				if e := safeEval(func() { t = post.Bool(en.Expr) }); e != nil {
-					return x, fmt.Errorf("%s: ensures %q: %v", x.root, en.Src, e)
+					x.noteStale(fmt.Sprintf("%s: ensures %q: %v", x.root, en.Src, e))
+					break
 				}
 				o := x.oblige("ensures", lbl, rp.pos, rp.pc, t)
 				o.Extra = map[string]string{"ensures": en.Src}
